@@ -6,6 +6,18 @@ ROOT = os.path.dirname(os.path.dirname(os.path.abspath(__file__)))
 
 # id -> dict(engine, category, technique, text, note, design_ref) ; absent => not_applicable with reason
 CHECKS = {
+    "C06": dict(
+        engine="insert", category="exploration",
+        technique="property-based testing with two oracles: (a) carried-out placements judged by the independent reference model R (soundness, all features), (b) small-scope brute-force enumeration of every (leg, place, window) by an independent step-by-step simulation (soundness and completeness of exhaustive best insertion for single-task jobs)",
+        text="States are solver-reachable (cheapest insertion on generated pragmatic problems stopped after a generated number of insertions). Every waiting job x every tour x every InsertionPosition::Concrete(p) and Any is evaluated through the public eval_job_insertion_in_route with LegSelection::Exhaustive; accepted placements are carried out through InsertionHeuristic::process and judged by R; on problems restricted to windows, shift times and capacity the Any answer must succeed iff a brute-force simulation finds a feasible triple and must return one of them; windows are also placed exactly on, one second before, and degenerate at reachable arrival times. Found and repaired two defects (last job of an open tour rejected when service would end after its window; a window after shift end hid the other places of a job).",
+        note="Trusted: reference model R and the simulation in harness/src/engines/insert.rs. Per-position completeness of Concrete(p) and completeness for multi-task jobs are not claimed by the property and are counted only.",
+        design_ref="4/C06"),
+    "C20": dict(
+        engine="insert", category="exploration",
+        technique="property-based metamorphic testing: quoted insertion cost vs realised change of each objective layer after carrying out the same insertion through the shipped apply/finalise path",
+        text="On solver-reachable states of generated pragmatic problems (no breaks/reloads/soft order) with explicit objective lists drawn from five orders of minimize-unassigned / minimize-tours / minimize-distance or minimize-cost (+ maximize-value when jobs carry values), the InsertionSuccess quoted by eval_job_insertion_in_route for (tour, job, position) triples - single and multi-task jobs, existing and new tours, open and closed - is carried out and fitness_k(after)-fitness_k(before) must equal the quote for every additive layer (1e-6 relative); the cost layer is asserted only without waiting time before and after. The fitness realised by the Any answer must be lexicographically minimal among all accepted positions.",
+        note="Trusted: GoalContext::fitness as the definition of the objective value (its consistency with the bare tours is C05's subject). Non-additive objectives are outside the statement.",
+        design_ref="4/C20"),
     "C10": dict(
         engine="validate", category="exploration",
         technique="property-based fault injection over valid documents with an independent executable model of the documented validation rules (differential oracle on the exact code set), plus totality (no panic) over value-mutated documents",
